@@ -21,7 +21,7 @@ pub fn families() -> Vec<Family> {
             "blocking Fleet vs. one scripted node: outcome sequences (refused / accepted-then-closed / closed-while-idle / silent / malformed / app-error / success) then a healthy phase",
             c19_fleet_seq,
         )
-        .runs(4_000, 150_000)
+        .runs(20_000, 1_200_000)
         .steps(400_000),
         Family::new(
             "c19_fleet_broadcast",
@@ -29,7 +29,7 @@ pub fn families() -> Vec<Family> {
             "blocking Fleet broadcast_json over tag subsets of up to 4 healthy or flaky nodes",
             c19_fleet_broadcast,
         )
-        .runs(1_500, 40_000)
+        .runs(20_000, 1_200_000)
         .steps(400_000),
     ]
 }
@@ -237,6 +237,7 @@ fn c19_fleet_seq(case: &Case) {
     case.sample(json!({"max_attempts": max_attempts, "outcomes": seq.iter().map(|o| format!("{o:?}")).collect::<Vec<_>>(),
         "timeout_ms": timeout_ms, "retry_delay_ms": delay_ms, "scripted_calls": ncalls, "silent_connection_stays_dead": silent_mutes_conn}));
 
+    case.cover("outcome_sequence(of 22k for max_attempts<=3)", format!("{max_attempts}/{}", seq.iter().map(|o| (*o as u8 + b'0') as char).collect::<String>()));
     let log = Arc::new(std::sync::Mutex::new(NodeLog::default()));
     let stop = Arc::new(std::sync::atomic::AtomicBool::new(false));
     let (l2, s2, seq2) = (log.clone(), stop.clone(), seq.clone());
